@@ -161,6 +161,23 @@ def judge_types(case):
         if not d <= q.tol:
             return v.fail(f"{q.name} with transform (shape {T.shape}) is not the untransformed array with T applied on every "
                           f"basis index: deviation {d:.3e} at {at}")
+    # a complex transformation (complex orbital coefficients): T is applied to every basis index, not conjugated on any of them;
+    # the documentation names no dtype, so a function may also refuse it
+    Tc = T + 0.7j * np.roll(T, 1, axis=1)
+    for q in quants:
+        if q.density:
+            continue
+        try:
+            got = q(bt, env, Tc)
+        except Exception:  # noqa: BLE001 - refusing a complex transformation is acceptable
+            v.classes.append("complex-T-rejected")
+            continue
+        v.classes.append("complex-T")
+        plain = lib(q, bt, env)
+        d, at = quant.relation_dev(got, plain, [Tc] * len(q.axes), q.axes, nat=sct.nat(q, plain))
+        if not d <= q.tol:
+            return v.fail(f"{q.name} with a complex transform is not the untransformed array with T applied (unconjugated) on every "
+                          f"basis index: deviation {d:.3e} at {at}")
     if not case["eri"]:
         k = 1 if n > 1 else None
         if k:
